@@ -1,12 +1,15 @@
 import MoPepGen.Lemmas.Regex
+import MoPepGen.Lemmas.Pairing
+import MoPepGen.Lemmas.DigestPos
 import MoPepGen.Generated.Expasy
 /-!
 # C10 — canonical pool = exact in-silico digest of the proteome
 
-Property theorems only.  `Re`, `cleaveSites`, `enzymaticCleave`, `peptidePool`
-are the models of the Python (tied to /repo by the correspondence streams
-`sites`, `ranges`, `cleave`, `pool`); `isSite` and the right-hand sides below
-are the definitions the property text speaks about.
+Property theorems only.  `Re`, `cleaveSites`, `cleaveSitesWithRange`, `enzymaticCleave`,
+`peptidePool` are the models of the Python (tied to /repo by the correspondence streams
+`sites`, `ranges`, `cleave`, `pool`); `isSite`, `PosProduct`, `rangeSpec` and the right-hand
+sides below are the definitions the property text speaks about (their executable forms run
+against the real code in the streams `issite`, `pcleave`, `pranges`, `wings`).
 -/
 namespace MoPepGen.Props.C10
 open MoPepGen
@@ -330,6 +333,235 @@ theorem pool_closed_iToL (c : CleaveCfg) (prots : List (Pep × Bool)) (pool : Li
   · simp [iToL, List.map_map]
     intro a _ ; split <;> simp_all
 
+/-! ## digest, positional form
+
+The same statement with POSITIONS only: the right-hand side mentions positions of `s`,
+the positional site predicate `isSite` (= the ExPASy rule, `sites_eq_isSite`), `slice`
+and the length / mass filter `keep` — no boundary list, no index into one, none of the
+model's scanning helpers. -/
+
+/-- S: `p` is cut out of `s` by two boundary positions `a`, `b` (N-terminus, cleavage
+site, C-terminus) with at most `misc` cleavage sites strictly between them — or is that
+stretch without its leading Met when it starts at the N-terminus and the CDS start is
+known.  The only pair with `a = b` is the one the code visits: the C-terminus twice, when
+the protein is empty or its last residue is followed by a cleavage site (the code appends
+`len(seq)` to a list that already holds it). -/
+def PosCandidate (c : CleaveCfg) (s : Pep) (nf : Bool) (p : Pep) : Prop :=
+  ∃ a b,
+    (a = 0 ∨ isSite c.rule c.exc s a = true ∨ a = s.length) ∧
+    (b = 0 ∨ isSite c.rule c.exc s b = true ∨ b = s.length) ∧
+    (a < b ∨ (a = s.length ∧ b = s.length ∧
+      (s.length = 0 ∨ isSite c.rule c.exc s s.length = true))) ∧
+    ((List.range b).filter fun i => decide (a < i) && isSite c.rule c.exc s i).length ≤ c.misc ∧
+    (p = slice s a b ∨
+      (a = 0 ∧ nf = false ∧ (slice s a b).head? = some 'M' ∧ p = (slice s a b).drop 1))
+
+/-- S: a digestion product = a candidate without `X`, within the length window, heavier
+than `minMw`. -/
+def PosProduct (c : CleaveCfg) (s : Pep) (nf : Bool) (p : Pep) : Prop :=
+  PosCandidate c s nf p ∧ c.keep p = some true
+
+/-- index pairs of the boundary list ↔ pairs of boundary positions -/
+theorem idxForm_iff_pos (c : CleaveCfg) (s : Pep) (nf : Bool) (p : Pep) :
+    (∃ st en, st < en ∧ en < (digestBounds c s).length ∧ en - st - 1 ≤ c.misc ∧
+      (p = slice s ((digestBounds c s).getD st 0) ((digestBounds c s).getD en 0) ∨
+        (st = 0 ∧ nf = false ∧
+          (slice s ((digestBounds c s).getD st 0) ((digestBounds c s).getD en 0)).head? = some 'M' ∧
+          p = (slice s ((digestBounds c s).getD st 0) ((digestBounds c s).getD en 0)).drop 1)))
+    ↔ PosCandidate c s nf p := by
+  have hbs : digestBounds c s = Rank.bs (isSite c.rule c.exc s) s.length := rfl
+  have h0 : isSite c.rule c.exc s 0 = false := by simp [isSite]
+  have hn : ∀ i, isSite c.rule c.exc s i = true → i ≤ s.length := fun i h => (isSite_bounds h).2
+  rw [hbs]
+  constructor
+  · rintro ⟨st, en, h1, h2, h3, hp⟩
+    obtain ⟨ba, bb, hab, hcnt, hst⟩ := Rank.idx_to_pos (isSite c.rule c.exc s) s.length h0 hn h1 h2
+    refine ⟨_, _, ba, bb, hab, ?_, ?_⟩
+    · exact Nat.le_trans hcnt h3
+    · rcases hp with hp | ⟨hs, hp⟩
+      · exact Or.inl hp
+      · exact Or.inr ⟨hst.mp hs, hp⟩
+  · rintro ⟨a, b, ba, bb, hab, hcnt, hp⟩
+    obtain ⟨st, en, h1, h2, ea, eb, hle, hst⟩ :=
+      Rank.pos_to_idx (isSite c.rule c.exc s) s.length h0 hn ba bb hab
+    refine ⟨st, en, h1, h2, Nat.le_trans hle hcnt, ?_⟩
+    rw [ea, eb]
+    rcases hp with hp | ⟨hs, hp⟩
+    · exact Or.inl hp
+    · exact Or.inr ⟨hst.mpr hs, hp⟩
+
+/-- the list-index statement and the positional statement describe the same products -/
+theorem digestProduct_iff_pos (c : CleaveCfg) (s : Pep) (nf : Bool) (p : Pep) :
+    DigestProduct c s nf p ↔ PosProduct c s nf p := by
+  rw [PosProduct, ← idxForm_iff_pos]
+  constructor
+  · rintro ⟨st, en, h1, h2, h3, h4, hk⟩
+    exact ⟨⟨st, en, h1, h2, h3, h4⟩, hk⟩
+  · rintro ⟨⟨st, en, h1, h2, h3, h4⟩, hk⟩
+    exact ⟨st, en, h1, h2, h3, h4, hk⟩
+
+/-- the candidates the two loops of `enzymatic_cleave` visit are exactly the positional
+candidates -/
+theorem candidates_iff_pos (c : CleaveCfg) (s : Pep) (nf : Bool) (p : Pep) :
+    p ∈ cleaveCandidates s (bounds (cleaveSites c.rule c.exc s) s.length) c.misc nf ↔
+      PosCandidate c s nf p := by
+  rw [mem_cleaveCandidates, ← idxForm_iff_pos]
+  simp only [digestBounds, bounds, sites_eq_isSite]
+
+/-- **positional `cleave_spec`.** For every protein, rule, exception, miscleavage count
+and limits: `enzymatic_cleave` returns (as a set; the list may repeat a peptide, as the
+code's does) exactly the slices `s[a:b)` between boundary positions with at most `misc`
+sites strictly between them that pass the filters, plus the Met-removed twins. -/
+theorem cleave_spec_positional (c : CleaveCfg) (s : Pep) (nf : Bool) (r : List Pep)
+    (h : enzymaticCleave c s nf = some r) (p : Pep) :
+    p ∈ r ↔ PosProduct c s nf p :=
+  (cleave_spec c s nf r h p).trans (digestProduct_iff_pos c s nf p)
+
+/-- With `min_length ≥ 1` (every CLI default) the duplicated end plays no role:
+products are the non-empty stretches `a < b`. -/
+theorem cleave_spec_positional_nonempty (c : CleaveCfg) (hl : 1 ≤ c.minLen) (s : Pep) (nf : Bool)
+    (r : List Pep) (h : enzymaticCleave c s nf = some r) (p : Pep) :
+    p ∈ r ↔ ∃ a b, a < b ∧
+      (a = 0 ∨ isSite c.rule c.exc s a = true) ∧
+      (isSite c.rule c.exc s b = true ∨ b = s.length) ∧
+      ((List.range b).filter fun i => decide (a < i) && isSite c.rule c.exc s i).length ≤ c.misc ∧
+      (p = slice s a b ∨
+        (a = 0 ∧ nf = false ∧ (slice s a b).head? = some 'M' ∧ p = (slice s a b).drop 1)) ∧
+      c.keep p = some true := by
+  rw [cleave_spec_positional c s nf r h p]
+  constructor
+  · rintro ⟨⟨a, b, ba, bb, hab, hcnt, hp⟩, hk⟩
+    rcases hab with hab | ⟨ea, eb, _⟩
+    · have hbn : b ≤ s.length := by
+        rcases bb with h | h | h
+        · omega
+        · exact (isSite_bounds h).2
+        · omega
+      refine ⟨a, b, hab, ?_, ?_, hcnt, hp, hk⟩
+      · rcases ba with h | h | h
+        · exact Or.inl h
+        · exact Or.inr h
+        · omega
+      · rcases bb with h | h | h
+        · omega
+        · exact Or.inl h
+        · exact Or.inr h
+    · exfalso
+      have hlen := (keep_length hk).1
+      have hs : slice s a b = [] := by
+        subst ea; subst eb; simp [slice]
+      rw [hs] at hp
+      rcases hp with hp | ⟨_, _, _, hp⟩ <;> (subst hp; simp at hlen; omega)
+  · rintro ⟨a, b, hab, ba, bb, hcnt, hp, hk⟩
+    refine ⟨⟨a, b, ?_, ?_, Or.inl hab, hcnt, hp⟩, hk⟩
+    · rcases ba with h | h
+      · exact Or.inl h
+      · exact Or.inr (Or.inl h)
+    · rcases bb with h | h
+      · exact Or.inr (Or.inl h)
+      · exact Or.inr (Or.inr h)
+
+/-! ### the executable positional digest (`posDigest`, stream `pcleave`) -/
+
+theorem mem_posCandidates (c : CleaveCfg) (s : Pep) (nf : Bool) (p : Pep) :
+    p ∈ posCandidates c s nf ↔ PosCandidate c s nf p := by
+  simp only [posCandidates, List.mem_flatMap, List.mem_range, PosCandidate]
+  constructor
+  · rintro ⟨a, _, b, _, hp⟩
+    split at hp
+    · rename_i hpair
+      simp only [posPair, isBoundary, endTwice, sitesBetween, Bool.and_eq_true, Bool.or_eq_true,
+        beq_iff_eq, decide_eq_true_eq] at hpair
+      obtain ⟨⟨⟨ba, bb⟩, hab⟩, hcnt⟩ := hpair
+      refine ⟨a, b, ?_, ?_, ?_, of_decide_eq_true hcnt, ?_⟩
+      · rcases ba with (h | h) | h
+        · exact Or.inl h
+        · exact Or.inr (Or.inl h)
+        · exact Or.inr (Or.inr h)
+      · rcases bb with (h | h) | h
+        · exact Or.inl h
+        · exact Or.inr (Or.inl h)
+        · exact Or.inr (Or.inr h)
+      · rcases hab with h | ⟨⟨h1, h2⟩, h3⟩
+        · exact Or.inl h
+        · exact Or.inr ⟨h1, h2, h3⟩
+      · simp only [List.mem_append, List.mem_singleton] at hp
+        rcases hp with hp | hp
+        · right
+          split at hp
+          · rename_i hc
+            simp only [Bool.and_eq_true, beq_iff_eq, Bool.not_eq_true'] at hc
+            simp only [List.mem_singleton] at hp
+            exact ⟨hc.1.1, hc.1.2, hc.2, hp⟩
+          · cases hp
+        · left; exact hp
+    · cases hp
+  · rintro ⟨a, b, ba, bb, hab, hcnt, hp⟩
+    have han : a ≤ s.length := by
+      rcases ba with h | h | h
+      · omega
+      · exact (isSite_bounds h).2
+      · omega
+    have hbn : b ≤ s.length := by
+      rcases bb with h | h | h
+      · omega
+      · exact (isSite_bounds h).2
+      · omega
+    refine ⟨a, by omega, b, by omega, ?_⟩
+    have hpair : posPair c s a b = true := by
+      simp only [posPair, isBoundary, endTwice, sitesBetween, Bool.and_eq_true, Bool.or_eq_true,
+        beq_iff_eq, decide_eq_true_eq]
+      refine ⟨⟨⟨?_, ?_⟩, ?_⟩, decide_eq_true hcnt⟩
+      · rcases ba with h | h | h
+        · exact Or.inl (Or.inl h)
+        · exact Or.inl (Or.inr h)
+        · exact Or.inr h
+      · rcases bb with h | h | h
+        · exact Or.inl (Or.inl h)
+        · exact Or.inl (Or.inr h)
+        · exact Or.inr h
+      · rcases hab with h | ⟨h1, h2, h3⟩
+        · exact Or.inl h
+        · exact Or.inr ⟨⟨h1, h2⟩, h3⟩
+    rw [if_pos hpair]
+    simp only [List.mem_append, List.mem_singleton]
+    rcases hp with hp | ⟨h0, hnf, hM, hp⟩
+    · right; exact hp
+    · left
+      subst h0 hnf
+      simp only [hM, hp, beq_self_eq_true, Bool.not_false, Bool.and_self, if_true,
+        List.mem_singleton]
+
+/-- the executable positional digest is the positional statement -/
+theorem posDigest_spec (c : CleaveCfg) (s : Pep) (nf : Bool) (r : List Pep)
+    (h : posDigest c s nf = some r) (p : Pep) : p ∈ r ↔ PosProduct c s nf p := by
+  unfold posDigest at h
+  rw [filterKeep_some c _ r h p, mem_posCandidates, PosProduct]
+
+/-- … and raises exactly when `enzymatic_cleave` does; when neither raises they return the
+same set of peptides. -/
+theorem posDigest_agrees (c : CleaveCfg) (s : Pep) (nf : Bool) :
+    (enzymaticCleave c s nf = none ↔ posDigest c s nf = none) ∧
+    ∀ r r', enzymaticCleave c s nf = some r → posDigest c s nf = some r' →
+      ∀ p, p ∈ r ↔ p ∈ r' := by
+  constructor
+  · unfold enzymaticCleave posDigest
+    rw [filterKeep_none, filterKeep_none]
+    constructor
+    · rintro ⟨p, hp, hk⟩
+      exact ⟨p, (mem_posCandidates c s nf p).mpr ((candidates_iff_pos c s nf p).mp hp), hk⟩
+    · rintro ⟨p, hp, hk⟩
+      exact ⟨p, (candidates_iff_pos c s nf p).mpr ((mem_posCandidates c s nf p).mp hp), hk⟩
+  · intro r r' h h' p
+    rw [cleave_spec_positional c s nf r h p, posDigest_spec c s nf r' h' p]
+
+/-- the pool, positionally -/
+theorem pool_spec_positional (c : CleaveCfg) (prots : List (Pep × Bool)) (pool : List Pep)
+    (h : peptidePool c prots = some pool) (q : Pep) :
+    q ∈ pool ↔ ∃ e ∈ prots, ∃ p, PosProduct c (prepProtein e.1) e.2 p ∧ (q = p ∨ q = iToL p) := by
+  rw [pool_spec c prots pool h q]
+  simp only [digestProduct_iff_pos]
+
 /-! ## tables -/
 
 /-- The range patterns are the site patterns with look-arounds flattened
@@ -338,8 +570,252 @@ theorem rules2_is_flatten :
     Generated.expasyRules.map (fun e => (e.1, e.2.map Alt.flat)) = Generated.expasyRules2 := by
   decide
 
+/-! ## site / range pairing
+
+`iter_enzymatic_cleave_sites_with_range` zips the k-th `re.finditer` match of
+`EXPASY_RULES[rule]` with the k-th overlapped `regex.finditer` match of
+`EXPASY_RULES2[rule]`; the graph code (`PVGNode.split_node(cleavage_range=…)`) reads the
+range as "the residues this cleavage depends on".  Proved here, for ALL strings:
+
+* `range_pairing_general` — for a rule whose alternatives satisfy the decidable condition
+  `Re.pairOK`, the zip never raises "Inconsistent cleavage sites" and pairs every site with
+  the window of the alternative that matches there (`rangeSpec`);
+* `expasy_pairOK` / `range_pairing` — every rule of the regenerated tables satisfies the
+  condition and `EXPASY_RULES2` is its flattening (`rules2_is_flatten`), so the statement
+  holds for every enzyme of the package (`decide` over the complete tables);
+* `range_window_sound` — the paired range is a sound context window for the RULE: any
+  string that carries the same residues inside the range has a rule match at the
+  corresponding position, whatever lies outside;
+* `range_window_within_lookaround` — the range never reaches beyond the look-around of
+  the normal form (for which `isSite_cut_left/right` give locality in both directions);
+* `range_window_not_exception_sound` — the range does NOT cover the context of the
+  exception (`CKD`: the range of the site after `K` is `KD`, the exception looks at `C`);
+  this is the root of the open finding `exception-context-split-across-nodes`.
+* `wings_window` / `wings_cover_partial` — `EXPASY_RULES_WINGS_SIZE`. -/
+
+/-- **General pairing theorem.**  For every rule satisfying `pairOK`, every exception and
+every string, `iter_enzymatic_cleave_sites_with_range` (with the flattened rule as range
+pattern) does not raise and returns exactly: every ExPASy site, ascending, each with the
+window `(start, end)` of the leftmost alternative matching there. -/
+theorem range_pairing_general (rule : Re) (h : rule.pairOK = true) (exc : Option Re) (s : Pep) :
+    cleaveSitesWithRange rule (rule.map Alt.flat) exc s = some (rangeSpec rule exc s) := by
+  have hsites := sites_eq_isSite rule exc s
+  simp only [cleaveSitesWithRange, rangeSpec, ← hsites, cleaveSites, Re.ends,
+    finditer_eq_positions, Re.overlapped_eq_windows h s, List.length_map, bne_self_eq_false,
+    Bool.false_eq_true, if_false, zip_map_same, List.filter_map, List.map_map, Option.some.injEq]
+  rfl
+
+/-- Every rule of the regenerated `EXPASY_RULES` satisfies the pairing condition. -/
+theorem expasy_pairOK : ∀ e ∈ Generated.expasyRules, e.2.pairOK = true := by decide
+
+/-- **`range_pairing`.**  For every enzyme name of the package, with the site pattern and
+the range pattern the source pairs under that name, for every exception and EVERY string:
+the real function's model never raises and returns every site with the window of the
+alternative matching there. -/
+theorem range_pairing (name : String) (rule : Re) (rule2 : Re2)
+    (h1 : Generated.expasyRules.lookup name = some rule)
+    (h2 : Generated.expasyRules2.lookup name = some rule2)
+    (exc : Option Re) (s : Pep) :
+    cleaveSitesWithRange rule rule2 exc s = some (rangeSpec rule exc s) := by
+  have hflat : rule2 = rule.map Alt.flat := by
+    rw [← rules2_is_flatten, lookup_map_snd, h1] at h2
+    simpa using h2.symm
+  rw [hflat]
+  exact range_pairing_general rule (expasy_pairOK _ (lookup_mem h1)) exc s
+
+/-- the sites reported with ranges are the sites reported without -/
+theorem range_pairing_sites (name : String) (rule : Re) (rule2 : Re2)
+    (h1 : Generated.expasyRules.lookup name = some rule)
+    (h2 : Generated.expasyRules2.lookup name = some rule2)
+    (exc : Option Re) (s : Pep) :
+    (cleaveSitesWithRange rule rule2 exc s).map (·.map (·.1)) = some (cleaveSites rule exc s) := by
+  rw [range_pairing name rule rule2 h1 h2, sites_eq_isSite]
+  simp [rangeSpec, List.map_map, Function.comp_def]
+
+/-- **The paired range is a sound context window for the rule.**  If `i` is a rule site of
+`s` with range `(a, b)`, then `a < i ≤ b ≤ |s|`, and in ANY string `t`, at any position `j`
+whose surrounding residues `t[j-(i-a) .. j+(b-i))` equal `s[a .. b)`, position `j` is a
+rule site as well — no residue outside the range matters. -/
+theorem range_window_sound (rule : Re) (s : Pep) (i : Nat)
+    (hi : isSite rule none s i = true) :
+    (rule.matchRange s i).1 < i ∧ i ≤ (rule.matchRange s i).2 ∧
+    (rule.matchRange s i).2 ≤ s.length ∧
+    ∀ (t : Pep) (j : Nat), i - (rule.matchRange s i).1 ≤ j →
+      (∀ k, k < (rule.matchRange s i).2 - (rule.matchRange s i).1 →
+        t[j - (i - (rule.matchRange s i).1) + k]? = s[(rule.matchRange s i).1 + k]?) →
+      isSite rule none t j = true := by
+  simp only [isSite, Bool.and_eq_true, decide_eq_true_eq, Bool.not_false, and_true] at hi
+  obtain ⟨hpos, hm⟩ := hi
+  obtain ⟨a0, ha0, ma0⟩ := List.any_eq_true.mp hm
+  cases hf : rule.find? (·.matchAt s (i - 1)) with
+  | none => exact absurd ma0 (by simpa using List.find?_eq_none.mp hf a0 ha0)
+  | some a =>
+    have ha := List.mem_of_find?_eq_some hf
+    have ma : a.matchAt s (i - 1) = true := by
+      have := List.find?_some hf
+      exact this
+    have hlb := ((Alt.matchAt_iff a s (i - 1)).mp ma).1
+    have hlen := clsSeq_length ((Alt.matchAt_iff a s (i - 1)).mp ma).2
+    rw [Alt.flat_length, List.length_drop] at hlen
+    simp only [Alt.width] at hlen
+    simp only [Re.matchRange, hf]
+    refine ⟨by omega, by omega, by omega, ?_⟩
+    intro t j hj hk
+    have hmt : a.matchAt t (j - 1) = true := by
+      rw [Alt.matchAt_congr a t s (j - 1) (i - 1) (by omega) hlb]
+      · exact ma
+      · intro k hk'
+        simp only [Alt.width] at hk'
+        have := hk k (by omega)
+        have e1 : j - (i - (i - 1 - a.lb.length)) + k = j - 1 - a.lb.length + k := by omega
+        rw [e1] at this
+        exact this
+    simp only [isSite, Bool.and_eq_true, decide_eq_true_eq, Bool.not_false, and_true]
+    exact ⟨by omega, List.any_eq_true.mpr ⟨a, ha, hmt⟩⟩
+
+/-- The range stays inside the look-around of the normal form:
+`i - 1 - lbBound ≤ start` and `end ≤ i + laBound`. -/
+theorem range_window_within_lookaround (rule : Re) (s : Pep) (i : Nat)
+    (hi : isSite rule none s i = true) :
+    i - 1 - lbBound rule ≤ (rule.matchRange s i).1 ∧
+      (rule.matchRange s i).2 ≤ i + laBound rule := by
+  simp only [isSite, Bool.and_eq_true, decide_eq_true_eq, Bool.not_false, and_true] at hi
+  obtain ⟨a0, ha0, ma0⟩ := List.any_eq_true.mp hi.2
+  cases hf : rule.find? (·.matchAt s (i - 1)) with
+  | none => exact absurd ma0 (by simpa using List.find?_eq_none.mp hf a0 ha0)
+  | some a =>
+    have ha := List.mem_of_find?_eq_some hf
+    have := le_lbBound ha
+    have := le_laBound ha
+    simp only [Re.matchRange, hf]
+    omega
+
+/-- The range is NOT a context window for the exception: `AKD` and `CKD` carry the same
+residues in the range `(1, 3)` of the site after `K`, yet with `trypsin_exception` the
+site exists in the first and not in the second. -/
+theorem range_window_not_exception_sound :
+    ∃ rule exc, Generated.expasyRules.lookup "trypsin" = some rule ∧
+      Generated.expasyRules.lookup "trypsin_exception" = some exc ∧
+      rule.matchRange "AKD".toList 2 = (1, 3) ∧ rule.matchRange "CKD".toList 2 = (1, 3) ∧
+      slice "AKD".toList 1 3 = slice "CKD".toList 1 3 ∧
+      isSite rule (some exc) "AKD".toList 2 = true ∧
+      isSite rule (some exc) "CKD".toList 2 = false := by
+  refine ⟨_, _, rfl, rfl, ?_⟩
+  decide
+
+/-! ### `EXPASY_RULES_WINGS_SIZE` -/
+
+theorem wingsCover_iff (r : Re) (w : Nat × Nat) :
+    wingsCover r w = true ↔ lbBound r + 1 ≤ w.1 ∧ laBound r ≤ w.2 := by
+  simp only [wingsCover, Bool.and_eq_true, decide_eq_true_eq]
+  rfl
+
+/-- **Locality for a covering wings entry.**  If `(l, r)` covers the rule (and the
+exception), the verdict at position `i` of any string is the verdict computed on the
+window `s[i-l .. i+r)` alone. -/
+theorem wings_window (rule : Re) (exc : Option Re) (w : Nat × Nat)
+    (hr : wingsCover rule w = true) (he : ∀ e, exc = some e → wingsCover e w = true)
+    (s : Pep) (i : Nat) (hi : i ≤ s.length) :
+    isSite rule exc s i = isSite rule exc (slice s (i - w.1) (i + w.2)) (i - (i - w.1)) := by
+  simp only [wingsCover_iff] at hr he
+  have hel : optBound lbBound exc + 1 ≤ w.1 := by
+    cases exc with
+    | none => simp only [optBound]; omega
+    | some e => exact (he e rfl).1
+  have her : optBound laBound exc ≤ w.2 := by
+    cases exc with
+    | none => simp only [optBound]; omega
+    | some e => exact (he e rfl).2
+  -- cut on the left
+  have hs : s = s.take (i - w.1) ++ s.drop (i - w.1) := (List.take_append_drop _ _).symm
+  have hlen : (s.take (i - w.1)).length = i - w.1 := by
+    rw [List.length_take]; omega
+  have h1 : isSite rule exc s i = isSite rule exc (s.drop (i - w.1)) (i - (i - w.1)) := by
+    rcases Nat.lt_or_ge w.1 i with hlt | hge
+    · have := isSite_cut_left rule exc (s.take (i - w.1)) (s.drop (i - w.1)) (i - (i - w.1))
+        (by omega) (by omega)
+      rw [← hs, hlen] at this
+      have e : i - w.1 + (i - (i - w.1)) = i := by omega
+      rw [e] at this
+      exact this
+    · have e : i - w.1 = 0 := by omega
+      rw [e]; rfl
+  rw [h1]
+  -- cut on the right
+  have hd : s.drop (i - w.1) =
+      slice s (i - w.1) (i + w.2) ++ (s.drop (i - w.1)).drop (i + w.2 - (i - w.1)) := by
+    simp only [slice]
+    exact (List.take_append_drop _ _).symm
+  rcases Nat.lt_or_ge (s.drop (i - w.1)).length (i + w.2 - (i - w.1)) with hshort | hlong
+  · -- the window reaches the end of the string
+    have : slice s (i - w.1) (i + w.2) = s.drop (i - w.1) := by
+      simp only [slice]
+      exact List.take_of_length_le (by omega)
+    rw [this]
+  · have hl : (slice s (i - w.1) (i + w.2)).length = i + w.2 - (i - w.1) := by
+      simp only [slice, List.length_take]; omega
+    rw [hd]
+    exact isSite_cut_right rule exc _ _ _ (by omega) (by omega)
+
+/-- Which entries of `EXPASY_RULES_WINGS_SIZE` cover their rule.  FULL statement
+(`∀ e ∈ expasyRules, wingsCover e.2 (wings e.1)`) is FALSE for the tables in /repo: the
+eight rules listed have a left wing shorter than look-behind + consumed residue
+(`caspase 2`: `(?<=DVA)D` needs 4, the table says 2; `asp-n`/`ntcb`: `\w(?=D)` needs 1,
+the table says 0), so `iter_enzymatic_cleave_sites_with_range_local` cannot find the
+pattern inside its window (finding `wings-size-too-small`).  For all other rules the entry
+covers, and `wings_window` applies. -/
+theorem wings_cover_partial :
+    (Generated.expasyRules.filter fun e =>
+        !(wingsCover e.2 ((Generated.expasyWings.lookup e.1).getD (0, 0)))).map (·.1) =
+      ["asp-n", "caspase 2", "caspase 3", "caspase 4", "caspase 5", "caspase 6", "caspase 7",
+       "ntcb"] := by
+  decide
+
 /-! ## non-vacuity -/
 
 example : (Generated.expasyRules.lookup "trypsin").isSome = true := by decide
+
+/-- a lysc-like configuration with a two-letter mass table, for the examples -/
+def exCfg : CleaveCfg :=
+  { rule := [{ lb := [], core := Cls.pos ['K'], la := [] }], exc := none, misc := 0,
+    minMw := -1, minLen := 0, maxLen := 100, tab := [('A', 1), ('K', 1), ('M', 1)], water := 0 }
+
+-- positional candidates: an inner stretch, the Met-removed twin, and the duplicated end
+example : PosCandidate exCfg "MAKAK".toList false "AK".toList :=
+  ⟨3, 5, Or.inr (Or.inl (by decide)), Or.inr (Or.inl (by decide)), Or.inl (by decide), by decide,
+    Or.inl (by decide)⟩
+example : PosCandidate exCfg "MAKAK".toList false "AK".toList :=
+  ⟨0, 3, Or.inl rfl, Or.inr (Or.inl (by decide)), Or.inl (by decide), by decide,
+    Or.inr ⟨rfl, rfl, by decide, by decide⟩⟩
+example : PosCandidate exCfg "MAKAK".toList false [] :=
+  ⟨5, 5, Or.inr (Or.inr rfl), Or.inr (Or.inr rfl), Or.inr ⟨rfl, rfl, Or.inr (by decide)⟩,
+    by decide, Or.inl (by decide)⟩
+-- one missed cleavage is not allowed with `misc = 0`
+example : ((List.range 5).filter fun i => decide (0 < i) && isSite exCfg.rule exCfg.exc
+    "MAKAK".toList i).length = 1 := by decide
+-- the hypothesis of `cleave_spec_positional` is satisfiable, with the empty peptide returned
+example : enzymaticCleave exCfg "MAKAK".toList false =
+    some ["AK".toList, "MAK".toList, "AK".toList, []] := by decide
+example : posDigest exCfg "AK".toList true = some ["AK".toList, []] := by decide
+
+-- pairing: the hypotheses of `range_pairing` hold for every name of the table …
+example : ∃ r r2, Generated.expasyRules.lookup "thrombin" = some r ∧
+    Generated.expasyRules2.lookup "thrombin" = some r2 := ⟨_, _, rfl, rfl⟩
+-- … `pairOK` is a real restriction: `K|(?<=A)K` violates it and the zip does raise
+example : Re.pairOK [{ lb := [], core := Cls.pos ['K'], la := [] },
+    { lb := [Cls.pos ['A']], core := Cls.pos ['K'], la := [] }] = false := by decide
+example : cleaveSitesWithRange
+    [{ lb := [], core := Cls.pos ['K'], la := [] }, { lb := [Cls.pos ['A']], core := Cls.pos ['K'], la := [] }]
+    ([{ lb := [], core := Cls.pos ['K'], la := [] },
+      { lb := [Cls.pos ['A']], core := Cls.pos ['K'], la := [] }].map Alt.flat) none "AK".toList = none := by
+  decide
+-- … and the paired ranges of trypsin on `TTTMRPKTT`: `MRP` for the site after `R`, `KT` after `K`
+example : (Generated.expasyRules.lookup "trypsin").map (fun r => rangeSpec r none "TTTMRPKTT".toList) =
+    some [(5, (3, 6)), (7, (6, 8))] := by decide
+-- a covering and a non-covering wings entry
+example : (Generated.expasyRules.lookup "trypsin").map (fun r => wingsCover r (2, 1)) = some true := by
+  decide
+example : (Generated.expasyRules.lookup "caspase 2").map (fun r => wingsCover r (2, 1)) = some false := by
+  decide
 
 end MoPepGen.Props.C10
